@@ -19,7 +19,7 @@ for d in sorted(glob.glob(f"{V}/scratch/seeded_in2/C??/[C-H]")):
     os.makedirs(dst, exist_ok=True)
     for fn in os.listdir(d):
         src_ = os.path.join(d, fn)
-        if fn.startswith(("patch", "demo", "README", "harness")) and not fn.endswith(".log") and os.path.isfile(src_):
+        if fn.startswith(("patch", "demo", "README", "harness", "preview")) and not fn.endswith(".log") and os.path.isfile(src_):
             shutil.copy(src_, dst)
         elif fn == "harness" and os.path.isdir(src_):       # small stand-alone cargo package some demonstrations build
             shutil.copytree(src_, os.path.join(dst, fn), dirs_exist_ok=True, ignore=shutil.ignore_patterns("target"))
